@@ -307,7 +307,7 @@ class HostileWorld(World):
                    "witnesses complete their handshake before the first hostile peer starts and keep their connection for the whole run",
                    "witness calls may be delayed while hostile traffic flows but must return their own result",
                    "BaseException raised by user methods is outside the statement and not generated"]
-    QUICK_RUNS = 2500
+    QUICK_RUNS = 6000
     CHUNK = 100
     SHRINK_LISTS = ["peers", "peers.0.msgs", "peers.1.msgs", "peers.2.msgs"]
 
